@@ -491,6 +491,32 @@ def prove_peer_lookup(src_root, ex: Explorer):
     ex.run(path, 'peer-lookup')
 
 
+def prove_reset(src_root, ex: Explorer):
+    """reset() (the server told us to leave the tree): it CLOSES the connections of the parent and of every child and leaves the bookkeeping
+    to the CLOSED path (C13.closed.cleanup[*]: parent / child removed, server and children told the new position).  If reset() detaches
+    parent or children itself, the CLOSED handler no longer recognises the connections and nobody is told."""
+    def path(ctx: Ctx):
+        it = mk(src_root, ctx)
+        has_parent = ctx.choose(2, 'parent') == 1
+        n = ctx.choose(3, 'children')
+        t = Tree(it, ctx, parent=has_parent, n_children=n)
+        before_children = list(t.dn.attrs['children'])
+        seen = []
+
+        def on_yield(it2, label):
+            # while reset() is suspended (the connections are closing and their CLOSED events are being handled) the tree is intact
+            seen.append((t.dn.attrs['parent'] is t.parent, [c for c in t.dn.attrs['children']] == before_children))
+        it.aio.on_yield = on_yield
+        run(it, it.getattr(t.dn, 'reset'))
+        want = ([t.parent.attrs['connection']] if has_parent else []) + [c.attrs['connection'] for c in t.children]
+        ctx.prove(f'C13.reset.closes-tree[{tag(has_parent, n)}]', len(t.disconnected) == len(want) and all(any(d is w_ for d in t.disconnected) for w_ in want),
+                  'reset() must close the connection of the parent and of every child, and nothing else')
+        ctx.prove(f'C13.reset.leaves-bookkeeping-to-closed[{tag(has_parent, n)}]', all(p and c for p, c in seen) and t.dn.attrs['parent'] is t.parent
+                  and list(t.dn.attrs['children']) == before_children,
+                  'reset() detaches parent / children itself: the CLOSED handler no longer recognises them and server and children are not told')
+    ex.run(path, 'reset')
+
+
 def prove_fanout_relies(src_root, ex: Explorer):
     """the fan-out contract the unbounded children obligations use (send_messages_to_children: an arbitrary child of an arbitrarily long
     list is handed every message, without suspension) - C14.fanout.*, discharged here as well"""
@@ -502,7 +528,7 @@ def prove_fanout_relies(src_root, ex: Explorer):
 
 
 def items(src_root, tier):
-    return [('fanout', None), ('peer-lookup', None), ('candidates', None), ('adv', None), ('check_parent', None), ('branch', 'level'), ('branch', 'root'), ('unset', None), ('admit', None),
+    return [('reset', None), ('fanout', None), ('peer-lookup', None), ('candidates', None), ('adv', None), ('check_parent', None), ('branch', 'level'), ('branch', 'root'), ('unset', None), ('admit', None),
             ('max_children', None), ('session', None)]
 
 
@@ -515,6 +541,8 @@ def run_item(src_root, item, tier):
             prove_candidates(src_root, ex)
         elif kind == 'fanout':
             prove_fanout_relies(src_root, ex)
+        elif kind == 'reset':
+            prove_reset(src_root, ex)
         elif kind == 'peer-lookup':
             prove_peer_lookup(src_root, ex)
         elif kind == 'adv':
